@@ -333,7 +333,11 @@ func (h *ipv6HeaderTLVOption) serializeTo(data []byte, fixLengths bool, dryrun b
 	if !dryrun {
 		data[0] = h.OptionType
 		data[1] = h.OptionLength
-		copy(data[2:], h.OptionData)
+		// write exactly the OptionLength octets announced: no more, and none left stale
+		n := copy(data[2:length], h.OptionData)
+		for k := 2 + n; k < length; k++ {
+			data[k] = 0x0
+		}
 	}
 	return length
 }
@@ -375,10 +379,8 @@ func serializeTLVOptionPadding(data []byte, padLength int) {
 	tlvLength := uint8(padLength) - 2
 	data[0] = 0x1
 	data[1] = tlvLength
-	if tlvLength != 0 {
-		for k := range data[2:] {
-			data[k+2] = 0x0
-		}
+	for k := 2; k < padLength; k++ {
+		data[k] = 0x0
 	}
 	return
 }
